@@ -369,8 +369,9 @@ where
                                     Some(expr) => arg_stack.push(expr),
                                     None => (),
                                 }
-                                op_stack.push(next_op);
+                                // `stack_op` precedes `next_op` in the source
                                 op_stack.push(stack_op);
+                                op_stack.push(next_op);
                                 while arg_stack.len() > 1 {
                                     let rhs = arg_stack.pop().unwrap();
                                     let lhs = arg_stack.pop().unwrap();
